@@ -22,6 +22,9 @@ pub struct Beh {
     pub items: u8,
     /// sources: closed at creation (ends once `items` are consumed)
     pub closed: bool,
+    /// futures: panics (instead of completing) at the poll in which it would complete
+    #[serde(default)]
+    pub panics: bool,
 }
 
 #[derive(Clone, Copy, Debug, Serialize, Deserialize, PartialEq, Eq)]
@@ -195,6 +198,10 @@ pub struct Config {
     pub up_hi_slack: Option<usize>,
     /// drop the outstanding wakers before (true) or after (false) the subject at the end
     pub wakers_first: bool,
+    /// type shape of the children: bit 0 = the future type has no drop glue, bit 1 = the output
+    /// type has no drop glue (collections and joins only)
+    #[serde(default)]
+    pub shape: u8,
     /// name of the workload that generated this run (evidence only)
     pub workload: String,
 }
